@@ -41,6 +41,13 @@ theorem cache_cfg_table :
     (∀ f ∈ BLDFM.Fld.determining, f ∈ cacheCfg.keyFields) ∧ cacheCfg.haloResolvedAtGet = true ∧
     cacheCfg.haloResolvedAtPut = true ∧ cacheCfg.atomicWrite = true ∧ cacheCfg.guardedLoad = true := by decide
 
+/-- C08/C17: tower coordinates are converted whenever a reference origin is configured (`is not None` — an
+origin on the equator or the prime meridian is an origin), with (lat, lon, ref_lat, ref_lon) in this order -/
+theorem tower_local_xy_table :
+    towerLocalXY = ["self.domain.ref_lat is not None and self.domain.ref_lon is not None",
+      "tower.compute_local_xy(self.domain.ref_lat, self.domain.ref_lon)",
+      "self.x, self.y = latlon_to_xy(self.lat, self.lon, ref_lat, ref_lon)"] := rfl
+
 /-- C12: the process-global mutable state reachable from a solve is exactly the modelled one
 (config.NUM_THREADS, the FFT-manager singleton, pyfftw's thread setting, numba's thread count, the
 compiled-kernel table); a new module-level memo or a mutable default argument changes this table -/
